@@ -48,8 +48,22 @@ def domains_for(hw, rng, domains, ins):
     doms, parents = {}, [hw]
     for k in range(1, domains):
         gate = None
-        if rng.random() < .6:
+        u = rng.random()
+        if u < .35:
             gate = hw.wire('gate%d' % k, 1); ins.append(gate)
+        elif u < .75:
+            # an enable DERIVED FROM THE CIRCUIT: a free-running toggle register of the system domain (q <= ~q), used directly, or
+            # combined with a poked wire by a gate.  Such an enable changes in the middle of a clk(n) call, n >= 2, so a
+            # multi-cycle call must look at it before EVERY edge exactly as n single-cycle calls do.
+            tq = hw.wire('gtog%d_q' % k, 1); tn = hw.wire('gtog%d_n' % k, 1)
+            py4hw.Not(hw, 'gtog%d_inv' % k, tq, tn)
+            py4hw.Reg(hw, 'gtog%d' % k, tn, tq)
+            if u < .55:
+                gate = tq
+            else:
+                pk = hw.wire('gate%d' % k, 1); ins.append(pk)
+                gate = hw.wire('gcomb%d' % k, 1)
+                (py4hw.And2 if u < .65 else py4hw.Or2)(hw, 'gcomb%d_g' % k, pk, tq, gate)
         drv = py4hw.ClockDriver(rng.choice(DRIVER_NAMES), base=hw.clockDriver, enable=gate)
         doms['dom%d' % k] = (drv, gate)
         parents.append(box(hw, 'dom%d' % k, drv))
